@@ -27,3 +27,21 @@ Theorem C04_closing_glue :
   forall (N : Num) (h : pt N) (t : list (pt N)),
   close_ring (h :: t) = if pt_eq h (last t h) then h :: t else (h :: t) ++ (h :: nil).
 Proof. exact (fun N h t => eq_refl). Qed.
+
+(** the clamp for the bit-exact binary64 / binary32 models (order laws: NumLawsB) *)
+From Coq Require Import ZArith.
+From GB Require Import NumB NumLawsB.
+Theorem C04_clamp_in_both_boxes_f64 :
+  forall (a1 a2 b1 b2 q : pt NB64),
+  okpt (NB_laws 53 1024) a1 -> okpt (NB_laws 53 1024) a2 -> okpt (NB_laws 53 1024) b1 -> okpt (NB_laws 53 1024) b2 ->
+  (forall p, intersection_impl a1 a2 b1 b2 = LPoint p -> okX (NB_laws 53 1024) (px p) /\ okY (NB_laws 53 1024) (py p)) ->
+  intersection a1 a2 b1 b2 = LPoint q ->
+  okpt (NB_laws 53 1024) q /\ in_seg_box a1 a2 q /\ in_seg_box b1 b2 q.
+Proof. exact (@intersection_point_in_both_boxes NB64 (NB_laws 53 1024)). Qed.
+Theorem C04_clamp_in_both_boxes_f32 :
+  forall (a1 a2 b1 b2 q : pt NB32),
+  okpt (NB_laws 24 128) a1 -> okpt (NB_laws 24 128) a2 -> okpt (NB_laws 24 128) b1 -> okpt (NB_laws 24 128) b2 ->
+  (forall p, intersection_impl a1 a2 b1 b2 = LPoint p -> okX (NB_laws 24 128) (px p) /\ okY (NB_laws 24 128) (py p)) ->
+  intersection a1 a2 b1 b2 = LPoint q ->
+  okpt (NB_laws 24 128) q /\ in_seg_box a1 a2 q /\ in_seg_box b1 b2 q.
+Proof. exact (@intersection_point_in_both_boxes NB32 (NB_laws 24 128)). Qed.
